@@ -5,11 +5,13 @@ import (
 	"encoding/json"
 	"fmt"
 	"log/slog"
+	"reflect"
 	"runtime/debug"
 	"strings"
 	"sync"
 	"testing"
 	"testing/synctest"
+	"unsafe"
 
 	"github.com/magisterquis/curlrevshell/internal/iobroker"
 	"github.com/magisterquis/curlrevshell/lib/opshell"
@@ -160,8 +162,9 @@ func (s *sim) hook(a *attempt, site, dir, key string) {
 	h.key = key
 	switch site {
 	case "admit", "release":
-		p := &park{site: site, h: h, ch: make(chan struct{})}
+		p := &park{site: site, h: h, ch: make(chan struct{}), gid: gid}
 		h.park = p
+		h.gid = gid
 		h.site = site
 		if site == "release" {
 			h.proxyEnded = true
@@ -173,17 +176,27 @@ func (s *sim) hook(a *attempt, site, dir, key string) {
 	case "attached":
 		h.attachedR = true
 		h.site = "attached"
-		if s.busy == h {
-			s.busy = nil
-		}
+		s.unbusy(h)
 	case "done":
 		h.doneR = true
 		h.site = "done"
-		if s.busy == h {
-			s.busy = nil
-		}
+		s.unbusy(h)
 	}
 	s.mu.Unlock()
+}
+
+// unbusy: h has left its lock section.
+func (s *sim) unbusy(h *half) {
+	for i, x := range s.busyStack {
+		if x == h {
+			s.busyStack = append(s.busyStack[:i], s.busyStack[i+1:]...)
+			break
+		}
+	}
+	s.busy = nil
+	if n := len(s.busyStack); n > 0 {
+		s.busy = s.busyStack[n-1]
+	}
 }
 
 func (s *sim) main() {
@@ -230,13 +243,17 @@ func (s *sim) setup() {
 	s.ich = make(chan string, cfg.IchCap)
 	s.och = make(chan opshell.CLine, cfg.OchCap)
 	s.logBuf = &lockedBuf{}
-	s.baseLog = slog.New(slog.NewJSONHandler(s.logBuf, nil))
+	s.baseLog = slog.New(parkHandler{slog.NewJSONHandler(s.logBuf, nil), s})
 	b, err := iobroker.New(s.ich, s.och)
 	if err != nil {
 		s.harnessErr = "iobroker.New: " + err.Error()
 		return
 	}
 	s.b = b
+	s.lock = brokerLock(b)
+	if s.lock == nil && cfg.LogPark {
+		s.probes["log_park_unavailable"]++
+	}
 	s.bctx, s.bcancel = context.WithCancel(context.WithValue(context.Background(), simKey{}, s))
 	for i := 0; i < cfg.Listeners; i++ {
 		ch := make(chan iobroker.Event, 4096)
@@ -320,6 +337,9 @@ func (s *sim) teardown() {
 func (s *sim) newAttempt(kind string) *attempt {
 	a := &attempt{id: len(s.atts), kind: kind, startedStep: s.step}
 	a.addr = fmt.Sprintf("10.%d.%d.%d", 1+a.id/65536, (a.id/256)%256, a.id%256)
+	if kind == "io" && s.cfg.IOSameHost {
+		a.addr = "10.250.0.1" // several bidirectional clients behind one address
+	}
 	parent := context.Background()
 	if s.cfg.DeriveCtx {
 		parent = s.bctx
@@ -328,11 +348,72 @@ func (s *sim) newAttempt(kind string) *attempt {
 	ctx = context.WithValue(ctx, attKey{}, a)
 	a.ctx, a.cancel = context.WithCancel(ctx)
 	s.atts = append(s.atts, a)
-	s.byAddr[a.addr] = a
+	if _, ok := s.byAddr[a.addr]; !ok {
+		s.byAddr[a.addr] = a
+	}
 	return a
 }
 
 func (s *sim) logger(a *attempt) *slog.Logger { return s.baseLog.With("att", a.id) }
+
+// parkHandler wraps the JSON log handler.  In log-park runs it holds a caller
+// inside its log call when the caller is in the middle of one of the broker's
+// lock sections and the broker's lock turns out to be free there: code that
+// releases the lock around logging (or any other slow call) opens a window in
+// which other callers can run between its checks and its commit, and the
+// simulator then explores that window.  With the lock held, nothing is parked.
+type parkHandler struct {
+	slog.Handler
+	s *sim
+}
+
+func (h parkHandler) WithAttrs(as []slog.Attr) slog.Handler {
+	return parkHandler{h.Handler.WithAttrs(as), h.s}
+}
+func (h parkHandler) WithGroup(n string) slog.Handler {
+	return parkHandler{h.Handler.WithGroup(n), h.s}
+}
+func (h parkHandler) Handle(ctx context.Context, r slog.Record) error {
+	h.s.maybeLogPark()
+	return h.Handler.Handle(ctx, r)
+}
+
+// brokerLock returns the broker's mutex, found by reflection (nil if the
+// struct no longer has one under that name: log-park runs are then skipped).
+func brokerLock(b *iobroker.Broker) *sync.Mutex {
+	t := reflect.TypeOf(b).Elem()
+	f, ok := t.FieldByName("mu")
+	if !ok || f.Type != reflect.TypeOf(sync.Mutex{}) {
+		return nil
+	}
+	return (*sync.Mutex)(unsafe.Add(unsafe.Pointer(b), f.Offset))
+}
+
+func (s *sim) maybeLogPark() {
+	if !s.cfg.LogPark || s.lock == nil {
+		return
+	}
+	gid := simkit.GoID()
+	s.mu.Lock()
+	at := s.tag[gid]
+	top := s.busy
+	if s.tearingDown || at == nil || top == nil || top.gid != gid || top.logParked || top.logPark != nil {
+		s.mu.Unlock()
+		return
+	}
+	// is the broker's lock free although this caller is inside a lock section?
+	if !s.lock.TryLock() {
+		s.mu.Unlock()
+		return
+	}
+	s.lock.Unlock()
+	p := &park{site: "log", h: top, ch: make(chan struct{})}
+	top.logPark, top.logParked = p, true
+	s.parks = append(s.parks, p)
+	s.probes["parked_in_log_call_with_lock_free"]++
+	s.mu.Unlock()
+	<-p.ch
+}
 
 func (s *sim) spawn(a *attempt, call func()) {
 	go func() {
